@@ -120,3 +120,66 @@ Proof. vm_compute. repeat split. Qed.
 Example C03_byte_walker_on_truncated_buffers :
   to_string_w (firstn 3 (enc c03_example)) = Ok [110; 117; 108; 108] /\ to_string_w (firstn 20 (enc c03_example)) = Panic.
 Proof. vm_compute. split; reflexivity. Qed.
+
+(* ---- RFC 8259 validity, judged by a declarative grammar instead of a sample-based external parser.
+   JsonGrammar.rfc_text is the RFC 8259 grammar with denotations, written from the RFC with no relaxation (white space =
+   space/tab/LF/CR only; no raw control character, bare quote or bare backslash inside a string; only the RFC's escapes;
+   the text between the quotes valid UTF-8; number = [minus] int [frac] [exp]); JsonGrammarProofs.rfc_complete shows the
+   library's reader accepts every such text with that denotation.  The float printer pf (ryu) is a parameter:
+   rfc_float_text pf b  :=  jnumber (pf b) (NFloat b), "pf b is an RFC number token denoting b", asked only of the floats
+   that occur in the document (satisfiable: RenderRfc.rfc_float_text_example; a NaN or an infinity has no such text with
+   ryu's spellings, which is why the property excludes them). *)
+From JB Require Import JsonGrammar JsonGrammarProofs RenderRfc.
+
+Theorem C03_renderings_are_rfc8259_texts_of_the_document : forall pf pretty v,
+  wf_shape v = true -> finite_numbers v = true -> (forall b, In b (floats_of v) -> rfc_float_text pf b) ->
+  rfc_text (render pf pretty 0 v) (unsign v) /\ cmp_value (unsign v) v = Eq.
+Proof. exact rendering_is_rfc8259. Qed.
+Print Assumptions C03_renderings_are_rfc8259_texts_of_the_document.
+
+(* what the byte walkers to_string / to_pretty_string print for the encoding of a valid document: two RFC 8259 texts
+   of one and the same document (`denoted v` = unsign (normalise v)), which equals the stored one under compare; and the
+   library's reader gives that document back from either *)
+Theorem C03_byte_walker_prints_rfc8259 : forall pf v, wfb v = true -> top_ok v -> finite_numbers v = true ->
+  (forall b, In b (floats_of v) -> rfc_float_text pf b) ->
+  exists tc tp,
+    to_string_w' pf (enc v) = Ok tc /\ to_pretty_string_w' pf (enc v) = Ok tp /\
+    rfc_text tc (denoted v) /\ rfc_text tp (denoted v) /\ cmp_value (denoted v) v = Eq /\
+    parse_value tc = Ok (denoted v) /\ parse_value tp = Ok (denoted v).
+Proof. exact renderings_rfc. Qed.
+Print Assumptions C03_byte_walker_prints_rfc8259.
+
+(* "the pretty rendering differs from the compact one only in insignificant whitespace": removing the white space that
+   stands outside string literals from the pretty text gives the compact text, byte for byte *)
+Theorem C03_pretty_minus_whitespace_is_compact : forall pf v, wf_shape v = true ->
+  (forall b, In b (floats_of v) -> rfc_float_text pf b) ->
+  strip_ws_outside_strings (to_pretty_string_t pf v) = to_string_t pf v.
+Proof. exact pretty_strip_is_compact. Qed.
+Print Assumptions C03_pretty_minus_whitespace_is_compact.
+
+Theorem C03_byte_walker_pretty_minus_whitespace_is_compact : forall pf v, wfb v = true -> top_ok v -> finite_numbers v = true ->
+  (forall b, In b (floats_of v) -> rfc_float_text pf b) ->
+  exists tc tp, to_string_w' pf (enc v) = Ok tc /\ to_pretty_string_w' pf (enc v) = Ok tp /\ strip_ws_outside_strings tp = tc.
+Proof. exact walker_pretty_strip_is_compact. Qed.
+Print Assumptions C03_byte_walker_pretty_minus_whitespace_is_compact.
+
+(* an instance with a float (1.5, printed "1.5"), an escaped line feed and quote, a negative integer, an empty object:
+   every hypothesis holds, and the pretty text is the expected one (note the blank line inside the empty object) *)
+Definition c03_rfc_example : value :=
+  VObj [([97], VArr [VNum (NFloat 4609434218613702656); VStr [10; 34]; VNum (NInt (-5)%Z)]); ([98], VObj [])].
+Definition c03_pf : N -> list N := fun _ => [49; 46; 53].
+Example C03_rfc_example :
+  wfb c03_rfc_example = true /\ top_ok c03_rfc_example /\ finite_numbers c03_rfc_example = true /\
+  (forall b, In b (floats_of c03_rfc_example) -> rfc_float_text c03_pf b) /\
+  to_pretty_string_w' c03_pf (enc c03_rfc_example)
+  = Ok [123; 10; 32; 32; 34; 97; 34; 58; 32; 91; 10; 32; 32; 32; 32; 49; 46; 53; 44; 10; 32; 32; 32; 32; 34; 92; 110; 92; 34; 34; 44; 10;
+        32; 32; 32; 32; 45; 53; 10; 32; 32; 93; 44; 10; 32; 32; 34; 98; 34; 58; 32; 123; 10; 10; 32; 32; 125; 10; 125] /\
+  rfc_text (to_pretty_string_t c03_pf c03_rfc_example) (unsign c03_rfc_example).
+Proof.
+  assert (F : forall b, In b (floats_of c03_rfc_example) -> rfc_float_text c03_pf b).
+  { intros b Hb. cbn in Hb. destruct Hb as [<-|[]]. exact rfc_float_text_example. }
+  split; [vm_compute; reflexivity|]. split; [vm_compute; reflexivity|]. split; [vm_compute; reflexivity|].
+  split; [exact F|]. split; [vm_compute; reflexivity|].
+  apply render_rfc_text; [vm_compute; reflexivity|exact F].
+Qed.
+Print Assumptions C03_rfc_example.
